@@ -416,6 +416,18 @@ def inv_c19(model, real, tier, ops=None):
         covered = sorted({t for cr in (rdoc or {}).get("results", []) for g in cr["target_groups"] for t in g})
         if res.code != 0 or started != ALL_TARGETS or covered != ALL_TARGETS:
             v.append(("run-without-checkpoint-not-all-targets", "run covered %s, started %s, exit %s" % (covered, started, res.code)))
+        # an explicit interval does not conjure up a checkpoint: still everything is changed
+        for extra in (["-b", real.commit_ids[-1]], ["-b", real.commit_ids[0], "-e", real.commit_ids[-1]]):
+            doc = real.r.mr("analyze", *extra).json()
+            evals += 1
+            if doc is None or doc.get("checkpointed") is not False or doc.get("targets") != ALL_TARGETS:
+                v.append(("no-checkpoint-not-everything-changed", "analyze %s without a checkpoint printed %s" % (" ".join(x[:8] for x in extra), doc)))
+        real.r.clear_traces()
+        res = real.r.mr("run", "-c", "build", "-b", real.commit_ids[-1], env=real.r.trace_env())
+        evals += 1
+        started = sorted({real.r.target_pair(t)[0] for t in real.r.traces()})
+        if res.code != 0 or started != ALL_TARGETS:
+            v.append(("run-without-checkpoint-not-all-targets", "run --begin HEAD without a checkpoint started %s, exit %s" % (started, res.code)))
     else:
         got = (sdoc or {}).get("checkpoint")
         if show.code != 0 or got != real.last_update:
